@@ -1183,6 +1183,32 @@ def _r12(repo: Repo, ctx) -> None:
                     if isinstance(t, ast.Attribute) and norm(
                             t.value) == 'self':
                         others[t.attr] = a.value
+    if restored is None:
+        # no single `a, b, c = state`: versions / legacy layouts.  What can
+        # still be said: every shipped slot is assigned, on every normal
+        # path, from something that comes out of `state`
+        from ..shapes import derives_from
+        gss = CFG(ss.node)
+        ok_all = True
+        for sh in shipped:
+            if not sh.startswith('self.'):
+                continue            # a version tag or other constant
+            attr = sh[5:]
+            asg = [n.id for n in gss.nodes if n.kind == 'stmt' and isinstance(
+                n.ast, ast.Assign) and any(
+                    isinstance(t_, ast.Attribute) and t_.attr == attr
+                    and norm(t_.value) == 'self'
+                    for tg in n.ast.targets
+                    for t_ in ([tg] if not isinstance(
+                        tg, (ast.Tuple, ast.List)) else tg.elts))]
+            vals_ok = all(derives_from(
+                ss.node, {x.id for x in ast.walk(gss.nodes[i].ast.value)
+                          if isinstance(x, ast.Name)}, sp) for i in asg)
+            ok_all = ok_all and bool(asg) and vals_ok and \
+                gss.always_before(gss.exit, asg)
+        restored = shipped if ok_all else restored
+        others = {k: v for k, v in others.items()
+                  if f'self.{k}' not in shipped}
     ctx.ob('C09.R12', 'CompilerConnectionState:shipped=restored',
            restored == shipped,
            f'__getstate__ ships {shipped} but __setstate__ unpacks into '
